@@ -1187,13 +1187,11 @@ func (vr *voterecords) countWithExpels(
 
 		set, m := base.CountBallotSignFacts(wsfs)
 
-		newthreshold := threshold
-		quorum := uint(suf.Len())
-
-		if uint(len(wfacts)) > quorum-base.DefaultThreshold.Threshold(quorum) {
-			newthreshold = base.MaxThreshold
-			quorum = uint(suf.Len() - len(wfacts))
-		}
+		// NOTE voteproof with expels is validated under the suffrage without
+		// the expel nodes and max threshold; see
+		// isaac.IsValidVoteproofWithSuffrage().
+		newthreshold := base.MaxThreshold
+		quorum := uint(suf.Len() - len(wfacts))
 
 		if uint(len(set)) < newthreshold.Threshold(quorum) {
 			continue
